@@ -146,11 +146,14 @@ fn test(c: &Case, st: &mut Stats) -> TestResult {
                     return Ok(());
                 }
             };
-            let value = refattrs::encode(*kind, fields, *tid).ok_or_else(|| Fail::new("harness", "fields/kind"))?;
-            check_attr(typed.as_write(), &format!("{:?}", kind), kind.code(), &value)?;
+            // the value bytes themselves are C08's business: here the paths are compared with each
+            // other and with the structure header | value | zero padding
+            let value = guard(|| typed.as_write().to_raw().value.to_vec()).map_err(|p| Fail::new("c12-panic", format!("to_raw panicked: {}", p)))?;
+            let ty = typed.as_write().get_type().value();
+            check_attr(typed.as_write(), &format!("{:?}", kind), ty, &value)?;
             // the raw form of the same attribute writes the same bytes
             let raw = typed.as_write().to_raw().into_owned();
-            check_attr(&raw, &format!("{:?} via RawAttribute", kind), kind.code(), &value)?;
+            check_attr(&raw, &format!("{:?} via RawAttribute", kind), ty, &value)?;
             st.class(&format!("attr {:?}", kind));
             if value.len() % 4 != 0 {
                 st.class("value needs padding");
@@ -320,7 +323,7 @@ pub fn run(ctx: &Ctx) -> EvidenceMeta {
     ctx.enumerate("attr-lengths", &items, test);
     ctx.proptest(
         "attr-generated",
-        ctx.n(3_000, 150_000),
+        ctx.n(15_000, 400_000),
         || {
             ((0usize..19).prop_map(|i| ALL_KINDS[i]), gen::tid_strategy())
                 .prop_flat_map(|(kind, tid)| gen::fields_strategy(kind).prop_map(move |fields| Case::Attr { kind, fields, tid }))
@@ -329,7 +332,7 @@ pub fn run(ctx: &Ctx) -> EvidenceMeta {
     );
     ctx.proptest(
         "builder-generated",
-        ctx.n(1_500, 75_000),
+        ctx.n(4_000, 100_000),
         || gen::msg_spec(gen::seal_strategy(false, false), 7, 3).prop_map(Case::Builder),
         test,
     );
